@@ -264,6 +264,15 @@ func scenarios() []*mc.Scenario {
 				pp := p
 				pp.name = fmt.Sprintf("%s/keys=%v,%v", p.name, k.a, k.b)
 				scs = append(scs, scenario(mm, pp))
+				if mm.name == "SemMap" && i == 0 && p.ratio == 2 && len(p.threads) <= 3 {
+					// statement-level interleavings inside the semaphore code (lock misuse)
+					fp := pp
+					fp.name += "/fine"
+					fp.pb = [2]int{1, 2}
+					sc := scenario(mm, fp)
+					sc.Fine = true
+					scs = append(scs, sc)
+				}
 			}
 		}
 	}
